@@ -1150,6 +1150,9 @@ static Boolean DecodeIntelPseudo_LayoutMult(
             IncCodeFillBy(&pCtx->CurrCodeFill, &Diff, pCtx);
             break;
         }
+        case DSNone:
+            /* body consisted only of DUPs with count <= 0: nothing to replicate */
+            break;
         default:
             Result = False;
             goto func_exit;
